@@ -100,8 +100,10 @@ func (rn *runner) marshalCase(t *Target, name string, ref *dynamicpb.Message, la
 			Violation("C04", "marshal", "marshal-panic/"+sigOf(ref), "generated Marshal() panicked", desc, "no panic", p)
 		}
 		Count("marshal", fmt.Sprint(desc), outcome, size, true)
+		modelMarshal(md, ref, size, nil, nil, true)
 		return
 	}
+	modelMarshal(md, ref, size, b, merr, false)
 	switch rn.prop {
 	case "C17":
 		if initialized && merr != nil {
@@ -704,6 +706,7 @@ func (rn *runner) unmarshalCase(t *Target, name string, enc []byte, applied []st
 			Violation(prop, "unmarshal", "unmarshal-panic/"+panicClass(p), "generated Unmarshal() panicked on a valid encoding", desc, "message", p)
 		}
 		Count("unmarshal", fmt.Sprint(desc), "panic", len(enc), true)
+		rn.modelUnmarshal(t, name, md, enc, m, nil, true, malformed)
 		return
 	}
 	if measure {
@@ -713,6 +716,7 @@ func (rn *runner) unmarshalCase(t *Target, name string, enc []byte, applied []st
 			Violation("C08", "unmarshal", "allocation/out-of-proportion", "Unmarshal allocated memory out of proportion to the input", desc, fmt.Sprintf("<= %d bytes", 4096*len(enc)+(4<<20)), fmt.Sprint(grown))
 		}
 	}
+	rn.modelUnmarshal(t, name, md, enc, m, uerr, false, malformed)
 	outcome := "both-accept"
 	switch {
 	case uerr != nil && refErr != nil:
